@@ -24,7 +24,7 @@ RULE = (
     "function, one in a helper, one as a data function of another module, one as the operand of a * / ** unpacking in a call, or one as the path of the entry point itself (dds.keep(p, root) / "
     "@dds.data_function(p) on the evaluated function); (B) every cycle of length 1-4 over 4 edge kinds, "
     "entered at every member, in one and in two modules, plus the same shape with one edge cut; (C) dds.eval at depth 1-4 "
-    "below plain-call / keep edges, plus the same chain without the eval. Each program is evaluated by real dds (every sixth one after a first evaluation attempt made while its package was not accepted yet) on a store "
+    "below plain-call / keep edges, plus the same chain without the eval. Each program is evaluated by real dds (every sixth one after a first evaluation attempt made while its package was not accepted yet; every fourth path-list case after a well-formed evaluation that already stored one of the paths) on a store "
     "pre-populated by a valid evaluation; oracle = expected DDS error code (or normal evaluation for the well-formed twin), "
     "empty execution log, no store_blob / sync_paths traffic and unchanged store directories on rejection. Non-trivial = the "
     "offending items are non-adjacent in call order, nested, or in another module; distinct by program text."
@@ -92,6 +92,10 @@ def render_paths(pkg, paths, placement, special):
     if placement == "entrydata":
         m0 += [f"@dds.data_function({paths[special]!r})"]
     m0 += ["def root():", "    vlog.rec('root')"] + body + ["    return (%s,)" % ", ".join(f"r{i}" for i in range(len(paths)) if not (entry and i == special)), ""]
+    # a well-formed evaluation keeping ONE of the paths exactly like root does (used to warm the store before root is evaluated)
+    w = next((i for i in range(len(paths)) if i != special), None)
+    if w is not None:
+        m0 += ["", "def warm():", "    vlog.rec('warm')", f"    return dds.keep({paths[w]!r}, leaf)", ""]
     files = {f"{pkg}/__init__.py": "", f"{pkg}/m0.py": "\n".join(m0)}
     if m1:
         files[f"{pkg}/m1.py"] = "\n".join(m1)
@@ -140,8 +144,8 @@ def family_a(tier):
 BUILTIN_LIKE = ["next", "iter", "filter", "format"]
 
 
-def render_cycle(pkg, kinds, entry, cut, two_mods, entry_style="plain", local_import=False, builtin_names=False):
-    files = _render_cycle(pkg, kinds, entry, cut, two_mods, entry_style, local_import)
+def render_cycle(pkg, kinds, entry, cut, two_mods, entry_style="plain", local_import=False, builtin_names=False, attr_var=False):
+    files = _render_cycle(pkg, kinds, entry, cut, two_mods, entry_style, local_import, attr_var)
     if builtin_names:
         # the members of the cycle are user functions whose names coincide with builtins
         import re
@@ -152,10 +156,10 @@ def render_cycle(pkg, kinds, entry, cut, two_mods, entry_style="plain", local_im
     return files
 
 
-def _render_cycle(pkg, kinds, entry, cut, two_mods, entry_style="plain", local_import=False):
+def _render_cycle(pkg, kinds, entry, cut, two_mods, entry_style="plain", local_import=False, attr_var=False):
     """c_i --kinds[i]--> c_{(i+1)%n}; root plainly calls c_entry; if cut is not None that edge is replaced by a leaf call."""
     n = len(kinds)
-    top = (lambda: [VLOG_IMPORT, ""]) if local_import else (lambda: [VLOG_IMPORT, f"import {pkg}.m0", f"import {pkg}.m1" if two_mods else "", ""])
+    top = (lambda: [VLOG_IMPORT, ""]) if local_import else (lambda: [VLOG_IMPORT, f"import {pkg}.m0", f"import {pkg}.m1" if two_mods else "", "", "VX = 1", ""])
     mods = {0: top(), 1: top()}
     limp = [f"    import {pkg}.m0", f"    import {pkg}.m1"] if (local_import and two_mods) else ([f"    import {pkg}.m0"] if local_import else [])
     where = [(i % 2 if two_mods else 0) for i in range(n)]
@@ -171,6 +175,9 @@ def _render_cycle(pkg, kinds, entry, cut, two_mods, entry_style="plain", local_i
         j = (i + 1) % n
         here = where[i]
         lines = [f"def c{i}():"] + limp + [f"    vlog.rec('c{i}')"]
+        if attr_var and two_mods and not local_import and where[j] != here:
+            # the function also reads a variable through the module object through which it calls
+            lines.append(f"    _v = {pkg}.m{where[j]}.VX")
         if cut == i:
             lines.append("    r = xu.e0()")
         elif kind == "plain":
@@ -223,7 +230,7 @@ def family_b(tier, excluded=None):
                                   "entry_style": ["plain", "keep", "direct"][k % 3],
                                   # function-local imports only inside one module (a sub-module that is first imported by a
                                   # function body does not exist yet when dds analyses the code)
-                                  "local_import": (k % 5 == 0) and not two, "builtin_names": k % 7 == 3})
+                                  "local_import": (k % 5 == 0) and not two, "builtin_names": k % 7 == 3, "attr_var": two and k % 2 == 1})
             # the well-formed twin: one edge cut (entered at the member after the cut)
             cut = (len(cases)) % n
             cases.append({"fam": "B", "kinds": list(kinds), "entry": (cut + 1) % n, "cut": cut, "two": n > 1 and len(cases) % 2 == 0})
@@ -300,7 +307,7 @@ def render_case(case, pkg):
         return render_paths(pkg, case["paths"], case["placement"], case["special"])
     if case["fam"] == "B":
         return render_cycle(pkg, case["kinds"], case["entry"], case["cut"], case["two"],
-                            case.get("entry_style", "plain"), case.get("local_import", False), case.get("builtin_names", False))
+                            case.get("entry_style", "plain"), case.get("local_import", False), case.get("builtin_names", False), case.get("attr_var", False))
     return render_nested_eval(pkg, case["chain"], case["with_eval"], case["via"])
 
 
@@ -364,6 +371,11 @@ class Runner(object):
             # the package is first met while it is not accepted (whatever dds answers), and accepted afterwards
             self.w.call("eval", module=f"{pkg}.m0", func="root", style="eval")
         self.w.call("call", module="dds", func="accept_module", args=[pkg])
+        if case.get("warm"):
+            # one of the paths is already in the store, produced by an earlier well-formed evaluation of the same code
+            r0 = self.w.call("eval", module=f"{pkg}.m0", func="warm", style="eval")
+            if r0["exc"] is not None:
+                raise common.HarnessError("warm-up evaluation failed: " + str(r0["exc"]))
         before = snapshot(self.store_dir)
         if case["fam"] == "A" and case["placement"] == "entrykeep":
             res = self.w.call("eval", module=f"{pkg}.m0", func="root", style="keep", path=case["paths"][case["special"]])
@@ -413,6 +425,7 @@ def shard(idx, n, tier, seed):
     cases = family_a(tier) + family_b(tier, ev.excluded if idx == 0 else None) + family_c(tier)
     # rotate by seed so that different seeds put different cases first (the set is the same)
     mine = [dict(c, late_accept=True) if (i // n) % 6 == 3 else c for i, c in enumerate(cases) if (i + seed) % n == idx]
+    mine = [dict(c, warm=True) if (c["fam"] == "A" and len(c["paths"]) > 1 and k % 4 == 1 and not c.get("late_accept")) else c for k, c in enumerate(mine)]
     scratch = common.Scratch("vf-c11")
     runner = Runner(scratch)
     try:
@@ -420,7 +433,7 @@ def shard(idx, n, tier, seed):
             res, unchanged = runner.run(case)
             judge(case, res, unchanged)
             ev.case(case, nontrivial(case), features=["family:" + case["fam"], "expect:" + str(expected_of(case))]
-                    + ([f"placement:{case['placement']}"] if case["fam"] == "A" else []) + (["accepted-after-a-first-evaluation"] if case.get("late_accept") else []))
+                    + ([f"placement:{case['placement']}"] if case["fam"] == "A" else []) + (["accepted-after-a-first-evaluation"] if case.get("late_accept") else []) + (["one-path-already-stored"] if case.get("warm") else []))
     finally:
         runner.close()
         scratch.clean()
